@@ -32,18 +32,20 @@ OPERANDS = ["30", "x", "foo.bar", "mk(1)", "-1", "\"s\"", "a + b", "limits::MAX"
             "format!(\"{}-{}\", a, b)", "vec![1, 2, 3]", "Vec::<u8>::with_capacity(2)", "{ let cl_t = 1; cl_t + 1 }", "if c { 1 } else { 2 }", "&&z", "t.0", "größe",
             "-x", "!ok", "x as i64", "b\"bytes\"", "\"multi\\nline\"", "Some(1)", "S { a: 1 }", "[1, 2]", "a_rather_long_identifier_that_goes_on_and_on_for_a_while_to_stress_label_widths",
             # punctuation that belongs to the expression: the comma of a one-element tuple, trailing commas in calls, arrays and macros
-            "(5,)", "Some((5,))", "f((1,), [2,],)", "vec![1, 2,]", "None::<(u8,)>"]
-STRINGS = ["\"hi\"", "\"\"", "\"a b\"", "\"日本\"", "\"q\\\"uote\"", "r\"raw\"", "\"tab\\t\"", "\"std :: vec :: Vec\"", "\"a  b\"", "\" lead, trail \"", "\"x ::< y >:: z\"", "r\"( a . b )\""]
+            "(5,)", "Some((5,))", "f((1,), [2,],)", "vec![1, 2,]", "None::<(u8,)>",
+            # a quote character that does not delimit an ordinary string, followed by a string whose spacing is part of what was written
+            "f('\"', \"a  b\")", "r#\"say \"hi  there\"\"#", "(r\"\\\", \"a  b\")", "g(b'\"', \"x   y\")", "(\"\\\\\", \"c  d\")"]
+STRINGS = ["\"hi\"", "\"\"", "\"a b\"", "\"日本\"", "\"q\\\"uote\"", "r\"raw\"", "\"tab\\t\"", "\"std :: vec :: Vec\"", "\"a  b\"", "\" lead, trail \"", "\"x ::< y >:: z\"", "r\"( a . b )\"", "\"\\\"Alice\\\"\"", "r#\"\"q  q\"\"#"]
 RANGES = ["1..5", "1..=5", "..5", "..=5", "1..", "-3..=3", "'a'..='z'", "0.5..1.5"]
 REGEXES = ["r\"^a\"", "\"a+\"", "r\"\\d+\"", "r#\"x\"y\"#"]
-LIKES = ["pat", "mk(1)", "&re", "self.p", "Pat { n: 1 }", "r#ref", "Pat::<u8>::new()", "vec![\"a\"]", "(p)", "{ p }", "größe", "mk((\"a\",))"]
+LIKES = ["pat", "mk(1)", "&re", "self.p", "Pat { n: 1 }", "r#ref", "Pat::<u8>::new()", "vec![\"a\"]", "(p)", "{ p }", "größe", "mk((\"a\",))", "lk('\"', \"o  p\")"]
 CLOSURES = ["|cl_x| cl_x > 5", "move |cl_x| ok(cl_x)", "|cl_x: &i32| *cl_x > 1", "|cl_v| { cl_v.len() > 0 }", "|_| true"]
 CMP_OPS = ["<", "<=", ">", ">=", "==", "!="]
 STRUCT_PATHS = ["S", "m::S", "E::V", "crate::a::B", "S::<u8>", "r#struct::S", "::std::ops::Range", "Größe"]
 ENUM_PATHS = ["Some", "Ok", "Err", "E::T", "a::b::C", "Option::<i32>::Some", "::std::option::Option::Some", "r#enum::V"]
 UNIT_PATHS = ["None", "E::W", "Status::Active", "Option::<u8>::None", "r#mod::UNIT", "Größe::Klein", "i32::MAX", "r#type::r#match"]
 FIELDS = ["0", "1", "age", "name", "items", "inner", "re", "actual", "x", "r#type", "größe", "__report", "a_rather_long_field_name_to_stress_widths", "userName", "_hidden", "a__b", "X"]
-KEYS = ["\"a\"", "\"key two\"", "\"std :: vec\"", "\"a  b . c\"", "k", "1", "mk(2)", "&id", "r#type", "(1, 2)", "format!(\"k{}\", 1)", "-1", "'c'", "b\"k\"", "K::<u8>::new()", "(1,)", "f(2,)"]
+KEYS = ["\"a\"", "\"key two\"", "\"std :: vec\"", "\"a  b . c\"", "k", "1", "mk(2)", "&id", "r#type", "(1, 2)", "format!(\"k{}\", 1)", "-1", "'c'", "b\"k\"", "K::<u8>::new()", "(1,)", "f(2,)", "f('\"', \"a  b\")", "r#\"k\"1  2\"#"]
 VALUES = ["v", "self.x", "mk(1).y", "&v", "*v", "resp.data[0]", "(a, b)", "r#type", "vec![1, 2]", "mk::<u8>()", "{ v }", "größe", "f(|cl_q| cl_q + 1)", "-v", "v as u8",
           "S { a: 1 }", "[1, 2, 3]", "&mut w"]
 
